@@ -286,7 +286,30 @@ def owner_id_removal(ctx, p):
             covered |= receiver_overlay_maps(F, b, t, maps, bound)
             # record id parameter of the enclosing function: named record_id
             rid = [l for l, name in b.names.items() if name == 'record_id' and 1 <= l <= b.argc]
-            lib.eq_guarded(ctx, p + 'a owner-guard %s %s #bb-of-%s' % (b.path, hit[0], nm.split('::')[-1]), b, bi,
+            key_ = p + 'a owner-guard %s %s #bb-of-%s' % (b.path, hit[0], nm.split('::')[-1])
+            desc_ = 'an overlay entry is removed only if its record-id tag (tuple field 0) equals the record id this call is cleaning for (a later commit\'s newer entry for the same key must survive)'
+            if lib.eq_guard_site(b, bi, fields=['.#0'], params=rid[:1] or [3]) is None and rid:
+                # generic helper form: the tag is read through a closure parameter (`written_by(e.get()) == record_id`); then every
+                # caller must pass a closure that returns tuple field 0 of the entry
+                fnp = [l for l in range(1, b.argc + 1) if re.search(r'Fn|impl ', str(b.locals[l])) or str(b.locals[l]).strip() in ('F', 'G', 'W')]
+                gs = lib.eq_guard_site(b, bi, params=rid[:1])
+                if gs is not None and fnp:
+                    pol = lib.eq_polarity(b, gs)
+                    sl = backward_slice(b, [op_place(o) for o in pol[2] if op_place(o) is not None]) if pol else None
+                    via_closure = sl is not None and any(re.search(r'ops::Fn(Mut|Once)?(<.*>)?::call(_mut|_once)?$', c) for c in sl.calls)
+                    tag0 = True
+                    ncall = 0
+                    for cb in F.bodies.values():
+                        for x, t2 in cb.calls():
+                            if b.path in call_names(t2):
+                                ncall += 1
+                                cls = lib.closure_operands(cb, t2)
+                                if not cls or not all(F.body(c) is not None and '.#0' in backward_slice(F.body(c), [[0]]).fields for c in cls):
+                                    tag0 = False
+                    ctx.ob(key_, 'K3-guard', b.path, desc_ + ' [helper form: the tag is read through a closure every caller passes as |entry| entry.0]', via_closure and tag0 and ncall >= 1,
+                           'callers %d, closure returns field 0: %s' % (ncall, tag0), b.loc(bi))
+                    continue
+            lib.eq_guarded(ctx, key_, b, bi,
                            'an overlay entry is removed only if its record-id tag (tuple field 0) equals the record id this call is cleaning for (a later commit\'s newer entry for the same key must survive)',
                            fields=['.#0'], params=rid[:1] or [3])
     need = [['.CommitOverlay.indexed'], ['.CommitOverlay.address'], ['.CommitOverlay.btree_indexed'], ['.LogOverlays.index', '.IndexLogOverlay.map'], ['.LogOverlays.value', '.ValueLogOverlay.map'], ['.LogOverlays.ref_count', '.RefCountLogOverlay.map']]
@@ -374,9 +397,9 @@ def atomic_publication(ctx, p):
                           'defer_commit re-tags and cleans under one commit_overlay write guard', mode='write')
     er = ctx.body('log::Log::end_record')
     if er:
-        ext = [bi for b, bi in lib.calls_on_field(F, ['re:(Extend.*>::extend|HashMap.*::extend|HashMap.*::insert)$'], '.LogOverlays.index', bodies=[er])]
-        ext += [bi for b, bi in lib.calls_on_field(F, ['re:(Extend.*>::extend|HashMap.*::extend|HashMap.*::insert)$'], '.LogOverlays.value', bodies=[er])]
-        ext += [bi for b, bi in lib.calls_on_field(F, ['re:(Extend.*>::extend|HashMap.*::extend|HashMap.*::insert)$'], '.LogOverlays.ref_count', bodies=[er])]
+        PUB = ['re:(Extend.*>::extend|HashMap.*::extend|HashMap.*::insert)$']
+        per = {fld: lib.field_effect_sites(er, PUB, fld) for fld in ('.LogOverlays.index', '.LogOverlays.value', '.LogOverlays.ref_count')}
+        ext = [x for v in per.values() for x in v]
         # a helper that receives the map (bound parameter) and inserts/extends it counts as the publication site
         bound = overlay_bound_params(F, LOG_OVERLAY_MAPS)
         for bi, t in er.calls():
@@ -384,7 +407,7 @@ def atomic_publication(ctx, p):
             if cbs and bi in er.normal_blocks() and any(op_place(a) is not None and any(m in backward_slice(er, [op_place(a)]).fields for m in LOG_OVERLAY_MAPS) for a in t['a']):
                 ext.append(bi)
         ext = sorted(set(ext))
-        ctx.ob(p + 'd end_record-anchors', 'anchor', er.path, 'end_record publishes into the three log-overlay maps', len(ext) >= 3, 'publication sites: %s' % ext)
+        ctx.ob(p + 'd end_record-anchors', 'anchor', er.path, 'end_record publishes into the three log-overlay maps (directly or through a helper that is given the overlays)', all(per.values()) or len(ext) >= 3, 'publication sites: %s' % ext)
         overlay_entries_replaced_whole(ctx, p)
         lib.same_guard_at(ctx, p + 'e one-guard-over-log-publication', er, ext, '.Log.overlays',
                           'index, value and ref-count chunks of a record enter the log overlay under one write guard', mode='write')
@@ -802,6 +825,11 @@ def index_insert_retried(ctx, p):
                         for cs in cb.call_sites(b.path):
                             g2 = [g for g in cb.call_sites(grow) if g in cb.reaches(cs)]
                             again = [x for x in cb.call_sites(callee) if any(x in cb.reaches(g) for g in g2)]
+                            # or the grow-and-insert-again loop was extracted into a helper that is called after this call
+                            lg, lc = set(lib.sites_reaching(cb, [grow])), set(lib.sites_reaching(cb, [callee]))
+                            helper = [x for x in lg & lc if x in cb.reaches(cs) and x != cs and x not in cb.call_sites(callee)]
+                            if helper:
+                                continue
                             if not (g2 and again):
                                 ok_callers = False
                                 why = 'caller %s does not grow the index and insert again after the call' % cb.path
@@ -1292,6 +1320,25 @@ def torn_record_not_handed_over(ctx, p):
     ctx.ob(p + 'k0 append-error-arm', 'anchor', b.path, 'end_record appends through LogChange::flush_to_file and has an error arm for it', len(ft) == 1 and len(errs) >= 1, 'append sites %s error arms %s' % (ft, errs))
     if not errs:
         return
+    # the clearing may sit in a closure that runs on the Err value before the `?` (`.map_err(|e| { *appending = None; e })?`):
+    # such a call, applied to the append's result, clears on exactly the error outcome
+    def closure_clears(cpath):
+        cb = F.body(cpath)
+        if cb is None:
+            return False
+        for bi in cb.normal_blocks():
+            for st in cb.blocks[bi]['s']:
+                if st['k'] == 'assign' and st['r']['k'] == 'agg' and st['r']['ak'] == 'Adt:std::option::Option::None' and ('*' in st['p'][1:] or 'log::Appending' in str(cb.locals[st['p'][0]])):
+                    return True
+        return any(call_matches(t, ['re:Option::<T>::take$', 're:^std::mem::(take|replace)$']) for _bi, t in cb.calls())
+    on_err = []
+    for bi, t in b.calls():
+        if bi in b.normal_blocks() and call_matches(t, ['re:Result::<T, E>::(map_err|or_else|inspect_err)$']) and t['a'] and op_local(t['a'][0]) is not None:
+            src = backward_slice(b, [op_place(t['a'][0])])
+            if any(x in ft for x, _ in src.call_sites) and any(closure_clears(c) for c in lib.closure_operands(b, t)):
+                on_err.append(bi)
+    if on_err and all(b.find_path(list(b.succ(x)), {e}, removed=set(on_err)) is None for x in ft for e in errs):
+        clears = clears + errs      # every way into the error arm has passed the clearing closure
     w = b.find_path(errs, b.return_blocks(), removed=set(clears)) if clears else ['?']
     ctx.ob(p + 'k torn-record-never-handed-over', 'K1-must-pass', b.path,
            'when appending a record fails, the appending log writer is given up before the error is returned (the torn file cannot be flushed into the read queue and applied without validation)',
@@ -1435,3 +1482,30 @@ def no_fixed_slice_of_client_key(ctx, p, prefixes):
             ctx.ob(p + 's no-fixed-range-slice-of-a-client-key %s' % b.path, 'K7-panic-audit', b.path,
                    'a key of client-chosen length is not sliced with a constant range', False, 'constant range %s applied to %s' % (consts, client), b.loc(bi))
     ctx.ob(p + 's0 client-key-slices', 'K7-panic-audit', '-', 'no constant-range slice of a variable-length client key under %s' % list(prefixes), n == 0, 'found %d' % n)
+
+
+def one_salt_per_handle(ctx, p):
+    """The columns of a handle hash lookups with the salt stored in the metadata (Column::open is given the Metadata); the commit
+    path and the administration calls use DbInner.options.salt. The two must be the same value: DbInner::open stores the metadata
+    salt into its copy of the options on EVERY path, not only when the caller passed none - a caller-supplied salt that differs
+    from the stored one would otherwise make commits unreadable and be written back over the stored salt by add_column /
+    drop_last_column / reset_column (F52)."""
+    F = ctx.F
+    b = ctx.body('db::DbInner::open')
+    if not b:
+        return
+    stores = []
+    for bi in b.normal_blocks():
+        for st in b.blocks[bi]['s']:
+            if st['k'] == 'assign' and '.Options.salt' in st['p'][1:]:
+                pls = [op_place(a) for a in st['r'].get('a', []) if op_place(a) is not None]
+                if pls and '.Metadata.salt' in backward_slice(b, pls).fields:
+                    stores.append(bi)
+    made = [bi for bi in b.normal_blocks() for st in b.blocks[bi]['s'] if st['k'] == 'assign' and st['r']['k'] == 'agg' and st['r']['ak'] == 'Adt:db::DbInner']
+    ctx.ob(p + 'a0 salt-store-anchor', 'anchor', b.path, 'DbInner::open copies the stored salt into the options it keeps and builds DbInner', len(stores) >= 1 and len(made) == 1, 'stores %s construction %s' % (stores, made))
+    if not stores or not made:
+        return
+    w = b.find_path([0], set(made), removed=set(stores))
+    ctx.ob(p + 'a handle-keeps-the-stored-salt', 'K1-must-pass', b.path,
+           'on every path the options kept in DbInner get the salt of the stored metadata (the salt the columns were opened with), whatever salt the caller passed',
+           w is None, '' if w is None else 'path that keeps the caller\'s salt: ' + lib.short_path(b, w), b.loc(stores[0]))
